@@ -200,6 +200,7 @@ struct Harness {
     u64 evaluations = 0, sample_seen = 0, violations = 0;
     long long cur_case = -1;
     Rng sample_rng{12345};
+    std::function<void()> on_finish;
 
     void parse(int argc, char** argv) {
         for (int i = 1; i < argc; ++i) {
@@ -266,6 +267,7 @@ struct Harness {
     }
     void finish() {
         flight().case_no = -3;
+        if (on_finish) on_finish();
         std::string s = "{\"t\":\"summary\",\"evaluations\":" + std::to_string(evaluations) +
             ",\"distinct\":" + std::to_string(distinct.size()) + ",\"violations\":" + std::to_string(violations) + ",\"counters\":{";
         bool f = true;
